@@ -108,7 +108,7 @@ func c12Run(ci interface{}, rec *Rec) {
 			}
 			assume = append(assume, idx)
 		}
-		sat, _, ok := ref.DPLL(d.Clauses, d.NbVars, assume, 100_000_000)
+		sat, _, ok := ref.DPLL(d.Clauses, d.NbVars, assume, oracleBudget(100_000_000))
 		if !ok {
 			rec.Inconclusive("DPLL budget exhausted on an export with %d variables", d.NbVars)
 			return
